@@ -115,7 +115,7 @@ def gen_sched(rng, n):
 
 
 def mk(enc, data, buf, sched, expect, note, via='func', maxb=None, payload=None, cl=None, te=None, conf='ctor',
-       ctype=None, pre=(), emap=None, debug=False, accept=None):
+       ctype=None, pre=(), emap=None, debug=False, accept=None, verb=None):
     c = dict(kind='dec', data=list(data), buf=buf, sched=sched, maxb=maxb, via=via, expect=expect, note=note,
              nchunks=enc['nchunks'] if enc else 0)
     if via == 'wsgi':
@@ -131,6 +131,8 @@ def mk(enc, data, buf, sched, expect, note, via='func', maxb=None, payload=None,
             c['debug'] = True
         if accept:
             c['accept'] = accept
+        if verb:
+            c['verb'] = verb
         assert conf != 'setup_default' or (buf == DEFAULT_MEMFILE and maxb is None)
     if expect == 'exact':
         c['payload'] = list(enc['payload'] if payload is None else payload)
@@ -186,6 +188,7 @@ def expected_status(emap, k):
 
 
 from props.bodyA_shared import TE_CHUNKED, TE_OTHER  # noqa: E402  (shared with C13)
+VERBS = ['GET', 'HEAD', 'OPTIONS', 'TRACE', 'DELETE', 'PUT', 'PATCH', 'post', 'get', 'Put']
 PRE_OPS = ['partial', 'copy', 'copy_after', 'second', 'chunked_prop', 'set_ctype', 'set_ctype2', 'set_cl', 'set_te',
            'set_other', 'again']
 
@@ -214,6 +217,8 @@ def gen_wsgi(rng, enc, data, buf, sched, conf, plain=False):
         hdr['debug'] = True                       # error pages in their debug flavour ...
     if rng.random() < 0.2:
         hdr['accept'] = 'application/json'        # ... HTML (default) or JSON
+    if rng.random() < 0.3:
+        hdr['verb'] = rng.choice(VERBS)           # a chunked body is a chunked body under every verb
     if rng.random() < 0.2 and conf != 'setup_default':
         hdr['emap'] = rng.choice(EMAPS)             # an application-supplied errors_map
     if rng.random() < 0.3:
@@ -263,6 +268,33 @@ def gen_seq(rng):
         it['app'] = k
         items.append(it)
     return dict(kind='seq', apps=apps, items=items)
+
+
+def empty_size_variants(enc):
+    """corruptions that leave a size FIELD empty (the hex digits gone, replaced by blanks, only an extension left, a
+    doubled CRLF behind a chunk): such an encoding has no terminating zero-size chunk where it stops — it must be
+    refused, not end the body there"""
+    data = enc['data']
+    out = []
+    for a, b in enc['lines']:
+        line = data[a:b]
+        k = 0
+        while k < len(line) and line[k:k + 1] in b'0123456789abcdefABCDEF':
+            k += 1
+        for rep in (b'', b' ', b'\t', b' \t '):
+            out.append(data[:a] + rep + line[k:] + data[b:])
+        if line[k:k + 1] != b';':
+            out.append(data[:a] + b';x' + line[k:] + data[b:])
+    for t in enc['terms']:
+        out.append(data[:t + 2] + b'\r\n' + data[t + 2:])          # a doubled CRLF behind the chunk data
+    return out
+
+
+def gen_empty_size(rng, via=None):
+    enc = gen_encoding(rng, maxlen=30, long_ok=False)
+    d2 = rng.choice(empty_size_variants(enc))
+    via = via or rng.choice(['func', 'func', 'wsgi'])
+    return mk(enc, d2, enc['maxline'] + rng.choice([1, 7, 64]), gen_sched(rng, len(d2)), 'reject', 'emptysize', via)
 
 
 def gen_cl_garbage(rng):
@@ -334,6 +366,8 @@ def gen(rng, n):
             yield gen_seq(rng)
         elif i % 200 == 57:
             yield gen_cl_garbage(rng)
+        elif i % 16 == 3:
+            yield gen_empty_size(rng)
         elif i % 7 == 6:
             yield gen_hex(rng)
         else:
@@ -423,6 +457,15 @@ def corpus():
         it['app'] = app_i
         seq_items.append(it)
     out.append(dict(kind='seq', apps=[['ctor', 8, None, None], ['setup', 8, 5, None]], items=seq_items))
+    # round 10: an empty size field (digits gone / blanks / only an extension / doubled CRLF) never ends the body
+    for d_ in (b'3\r\nabc\r\n\r\n', b'3\r\nabc\r\n;x\r\n', b'3\r\nabc\r\n \r\n', b'3\r\nabc\r\n\t\r\n3\r\ndef\r\n0\r\n\r\n',
+               b'3\r\nabc\r\n\r\n3\r\ndef\r\n0\r\n\r\n', b'\r\n', b';\r\n\r\n'):
+        for via in ('func', 'wsgi'):
+            out.append(mk(dict(nchunks=1), d_, 8, [], 'reject', 'emptysize', via))
+    # round 10: the verb does not matter: a chunked body is decoded (and a truncated one refused) under any method
+    for vb in VERBS:
+        out.append(mk(dict(nchunks=1, payload=b'abcdefgh'), legal, 8, [], 'exact', 'legal', 'wsgi', verb=vb))
+        out.append(mk(dict(nchunks=1), trunc, 8, [], 'reject', 'prefix', 'wsgi', verb=vb))
     # round 8: debug=True error pages (HTML and JSON) for cut / garbled chunked bodies: still a client error
     for d_, note_ in ((trunc, 'prefix'), (b'3\r\nabcXX0\r\n\r\n', 'badterm'), (b'', 'prefix'), (b'zz\r\n', 'prefix')):
         for acc in (None, 'application/json'):
@@ -467,6 +510,11 @@ def corpus():
 def thorough():
     import random
     rng = random.Random('C05/thorough')
+    for _ in range(40):
+        enc = gen_encoding(rng, maxlen=20, long_ok=False)
+        for d2 in empty_size_variants(enc):
+            for sched in ([], [0] * (len(d2) + 4)):
+                yield mk(enc, d2, enc['maxline'] + 3, sched, 'reject', 'emptysize')
     # size lines of 65..300 bytes: every third strict prefix, buffer = the longest line and the 100 KiB default
     n_long = 0
     while n_long < 4:
@@ -621,8 +669,9 @@ def app_with_handler(conf, buf, maxb, emap=None, debug=False):
         c2 = app.request.body.read() if shares else c1
         c3 = rq.body.read()
         seen['stable'] = c1 == c2 == c3 and len(st.log) == n_reads
+        seen['body'] = c1                       # (a HEAD response carries no body: observe what the handler got)
         return c1
-    app.route('/b', method='POST', callback=handler)
+    app.route('/b', method='ANY', callback=handler)       # any verb, any spelling of it
     return app, holder
 
 
@@ -638,7 +687,7 @@ def cl_text(cl):
 def call_wsgi(app, holder, case, st):
     seen = {}
     holder.update(case=case, seen=seen, stream=st)
-    env = environ('POST', '/b', **{'wsgi.input': st})
+    env = environ(case.get('verb', 'POST'), '/b', **{'wsgi.input': st})
     if case.get('te', 'chunked'):
         env['HTTP_TRANSFER_ENCODING'] = case.get('te', 'chunked')
     if case.get('cl') is not None:
@@ -663,7 +712,7 @@ def call_wsgi(app, holder, case, st):
             return dict(status='unstable', why='the body changed after a header rewrite')
         if not seen.get('stable'):
             return dict(status='unstable')
-        return dict(status='ok', body=list(content), spilled=seen['spilled'], reqs=st.log, pos=st.pos)
+        return dict(status='ok', body=list(seen['body']), spilled=seen['spilled'], reqs=st.log, pos=st.pos)
     st_name = {400: 'parse_error', 413: 'too_large'}.get(code, 'http_%d' % code)
     if case.get('emap') is not None:
         st_name = 'http_%d' % code              # a supplied errors_map: the status itself is the observation
@@ -812,6 +861,7 @@ def oracle(case, obs):
         if st == 'ok':
             return '%s accepted as a complete body of %d bytes' % (
                 {'prefix': 'truncated encoding', 'badterm': 'chunk data not followed by CRLF',
+                 'emptysize': 'encoding with an empty chunk-size field',
                  'legal': 'size line longer than the buffer'}.get(case['note'], case['note']), len(obs['body'])) + (
                 ' (request also carried Content-Length: %s)' % case['cl'] if case.get('cl') is not None else '')
     return None
@@ -835,7 +885,7 @@ def key(case):
     if case['kind'] == 'seq':
         return ('seq', tuple(key(it) for it in case['items']))
     return (tuple(case['data'][:80]), len(case['data']), case['buf'], tuple(case['sched'][:8]), case['via'],
-            case['maxb'], case.get('cl'), case.get('te'), case.get('conf'), case.get('ctype'),
+            case['maxb'], case.get('cl'), case.get('te'), case.get('conf'), case.get('ctype'), case.get('verb'),
             tuple(case.get('pre', ())), str(case.get('emap')))
 
 
@@ -930,6 +980,7 @@ API_SURFACE = [
     ('Request.__setitem__ (CONTENT_TYPE, CONTENT_LENGTH, HTTP_*, QUERY_STRING) between two body accesses', 'covered by pre ops '
      'set_*: same body after the rewrite; after a FAILED read the next access fails the same way and reads nothing (F43); '
      "excluded: rewriting 'wsgi.input' itself — that replaces the body by design"),
+    ('environ REQUEST_METHOD', 'covered by verb (GET HEAD OPTIONS TRACE DELETE PUT PATCH, lower / mixed case) on legal and malformed cases'),
     ('environ CONTENT_TYPE', 'covered by ctype None/text/json/multipart/Multipart/empty boundary/boundary with ;  — the body '
                              'bytes do not depend on it; excluded: boundary containing CR (InvalidBoundaryError -> 400, C12)'),
     ("environ['wsgi.input'] missing", 'excluded: not a valid WSGI environ (KeyError)'),
